@@ -444,11 +444,17 @@ def search(c, rng):
             yield Case(join_line(b, ops), kind="search", decides=True, theorem="C03_history")
 
 
-LEVEL_TEXT = ("Proof: Properties/C03.v states, over a Gallina transliteration of packet/adaptationfield.go, SetAdaptationField, the "
-              "function-style accessor package and pcr.go, that every setter refines its meaning on the logical adaptation field "
-              "(bytes after the call = header ++ ISO serialisation of the updated logical value ++ payload, error = unchanged), lifted "
-              "to all histories by induction over the operation list, plus getter agreement for both APIs. The model is tied to /repo on "
-              "every run by executing whole histories on both and comparing all 188 bytes, the error and every getter after every call.")
-LEVEL_NOTE = ("Trusted: Coq kernel; the transcription Model/AF.v, AFfn.v, Pcr.v (checked by the correspondence); extraction and executor glue; "
-              "Go array/slice semantics as in DESIGN section 3. Known finding F13 (getter shape) is stated as such, not hidden.")
+LEVEL_TEXT = ("Proof: Properties/C03.v (22 theorems, all 'Closed under the global context') over a Gallina transliteration of "
+              "packet/adaptationfield.go, Packet.SetAdaptationField, the function-style accessor package and pcr.go (repaired code: F5, F6, C05 guards). "
+              "C03_step_refines: for EVERY well-formed start (adaptation_field_length 1..183, any payload, any subset of optional fields), every one of "
+              "the 14 setters and every in-range argument, the bytes after the call are header ++ ISO serialisation of the updated logical value ++ "
+              "payload, or an error with the operation not honourable; C03_history lifts this to all finite histories by induction over the operation "
+              "list; C03_no_spurious_error / C03_error_only_when_refused give both directions of the error contract; C03_getters_agree_partial and the "
+              "*_last_set theorems give every getter of both APIs (F13 shape for the two method slice getters, full reading refuted with a witness); "
+              "C03_frame_history is the byte-level statement that header, length byte and payload never change; C03_total_any_packet: no panic on any "
+              "188 bytes. The model is tied to /repo on every run by executing whole histories on both and comparing all 188 bytes, the error and "
+              "every getter after every call.")
+LEVEL_NOTE = ("Trusted: Coq kernel; the transcription Model/AF.v, AFfn.v, Pcr.v (checked by the correspondence on every run); extraction and executor glue; "
+              "Go array/slice semantics as in DESIGN section 3; Spec/AFSpec.v as the reading of ISO 13818-1 2.4.3.4. Values of PCR/OPCR/splice fields that were "
+              "switched on but never set are unspecified by the property and masked in the comparison. Known finding F13 (getter shape) is reported on every run.")
 TECHNIQUE = "Coq proof (refinement to a logical record + induction over histories) + model/implementation correspondence on generated and small-scope exhaustive edit histories"
